@@ -261,6 +261,9 @@ class Module:
         self.relpath = relpath
         self.src = src
         self.tree = ast.parse(src, filename=relpath)
+        # locals of functions that are alpha-equivalent to the pinned tree's are renamed back to the names the rules use
+        from . import alpha
+        self.alpha_renamed = alpha.apply(self.tree, relpath) if relpath.endswith(".py") else []
         self.is_pkg = relpath.endswith("__init__.py")
         self.imports: Dict[str, str] = {}
         self.funcs: Dict[str, Func] = {}
